@@ -793,11 +793,29 @@ def oracle(case, impl_result=None, seed=0):
 # ------------------------------------------------------------------ contract of a property module (for harness.core)
 ID = 'C16'
 THEOREMS = [
-    ('EAO.Properties.C16', 'EAO.C16.scaled_fixed', 'for any non-empty base problem whose bounds have the right length and whose mapping rows point at its variables, 0 < norm and a point (x, s) with 0 <= s, min_scale <= s <= max_scale: (x, s) satisfies bounds and rows of the scaled problem iff x satisfies the base problem with every right-hand side and the bounds of every dispatch variable multiplied by s/norm, the bounds of the other variables unchanged; the value is the base value minus s * fix_costs * sum dt'),
+    ('EAO.Properties.C16', 'EAO.C16.scaled_fixed', 'for any non-empty base problem whose bounds have the right length and whose capacity variables (mapping rows of type d, or non-boolean rows of type i) are variables of the base, 0 < norm and a point (x, s) with 0 <= s, min_scale <= s <= max_scale: (x, s) satisfies bounds and rows of the scaled problem iff x satisfies the base problem with every right-hand side and the bounds of every capacity variable multiplied by s/norm, the bounds of the other variables (boolean, other types, without mapping row) unchanged; the value is the base value minus s * fix_costs * sum dt'),
+    ('EAO.Properties.C16', 'EAO.C16.scaled_free', 'free scale: under the hypotheses of scaled_fixed on the base, 0 <= min_scale and base rows mentioning only columns < n, a number B bounds the values of the (relaxed) scaled problem iff for every s in [min_scale, max_scale] it bounds the values of the base problem rescaled by s/norm less s * fix_costs * sum dt: the optimum with a free scale is the best over the allowed range (same upper bounds, same supremum)'),
     ('EAO.Properties.C16', 'EAO.C16.scaled_wf', 'shape of the scaled problem: n+1 variables, bounds of that length, |rows| + 2 nD rows with columns < n+1, mapping re-assigned to the scaled asset, last mapping row = scale row pointing at variable n'),
     ('EAO.Properties.C16', 'EAO.C16.scaled_empty', 'an empty base problem is handed on unchanged'),
     ('EAO.Properties.C16', 'EAO.C16.structured_flat_vectors', 'portfolio with the structured asset and flat portfolio have the same cost vector and bounds (same variables, same order)'),
     ('EAO.Properties.C16', 'EAO.C16.structured_flat', 'if dispatch rows sit at the assets own nodes and inner non-external node names do not occur among outer assets nodes nor in the skip list, a point satisfies all rows of the portfolio with the structured asset iff it satisfies all rows of the flat portfolio'),
+]
+PARTIAL = ['scaled_fixed and scaled_free are statements about the RELAXED problems (bounds and rows, no integrality): for bases with boolean variables (plants with on-variables, full-execution order books) the scaled asset is not "all capacities times s/norm" (capacities that sit in matrix coefficients of boolean variables are not scaled; known finding F-16c); the per-builder identification of "right-hand sides and capacity bounds times k" with "all capacity parameters times k" is checked by the fixed-scale oracle on the real code, not proved']
+THEOREMS_C08_SCALED = [
+    ('EAO.Properties.C08Scaled', 'EAO.C08Scaled.scaled_mapping', 'mapping of the scaled problem (non-empty base) = base mapping with the asset name replaced, followed by the one row of the scale'),
+    ('EAO.Properties.C08Scaled', 'EAO.C08Scaled.scale_row_not_dispatch', 'the scale row has type size, step 0 and is a dispatch row at no node and step'),
+    ('EAO.Properties.C08Scaled', 'EAO.C08Scaled.scaled_dispatch_rows', 'the rows of type d of the scaled problem are exactly those of the base (asset name replaced; variable, node, step, factor unchanged), for every base, empty or not'),
+    ('EAO.Properties.C08Scaled', 'EAO.C08Scaled.scaled_vars_only_in_window', 'if every mapping row of the base sits at a step in W, every mapping row of the scaled problem does, except the scale row (step 0)'),
+    ('EAO.Properties.C08Scaled', 'EAO.C08Scaled.scaled_dispatch_only_in_window', 'if the base has no dispatch row outside W, neither has the scaled asset'),
+    ('EAO.Properties.C08Scaled', 'EAO.C08Scaled.scaled_no_dispatch_outside_window', 'at a step where the base has no dispatch row the dispatch reported for the scaled asset is 0 at every node, whatever the solution (also at step 0 where the scale row sits)'),
+    ('EAO.Properties.C08Scaled', 'EAO.C08Scaled.scaled_empty_window_inert', 'a base that is not active in the horizon (empty problem) makes the scaled asset inert: no variable (no scale, no fixed costs), no row, no mapping row'),
+    ('EAO.Properties.C08Scaled', 'EAO.C08Scaled.structured_d_rows', 'the rows of type d of the structured problem are, as a list, the inner portfolio rows of type d that are not at a non-external node, re-assigned to the wrapper'),
+    ('EAO.Properties.C08Scaled', 'EAO.C08Scaled.structured_dispatch_rows_at', 'the dispatch rows of the structured problem at (node n, step t) are, as a list, the inner portfolio dispatch rows at (n, t) if n is external, and none otherwise'),
+    ('EAO.Properties.C08Scaled', 'EAO.C08Scaled.structured_dispatch_row_iff', 'the structured problem has a dispatch row at (n, t) iff n is external and some inner asset has a dispatch row at (n, t)'),
+    ('EAO.Properties.C08Scaled', 'EAO.C08Scaled.structured_vars_only_in_window', 'if every mapping row of every inner asset sits at a step in W (union of the inner windows), so does every mapping row of the structured problem'),
+    ('EAO.Properties.C08Scaled', 'EAO.C08Scaled.structured_dispatch_only_in_window', 'a dispatch row of the structured problem sits at a step where some inner asset has a dispatch row'),
+    ('EAO.Properties.C08Scaled', 'EAO.C08Scaled.structured_no_dispatch_outside_window', 'at a step where no inner asset has a dispatch row, and at every node that is not external, the dispatch reported for the structured asset is 0 whatever the solution'),
+    ('EAO.Properties.C08Scaled', 'EAO.C08Scaled.structured_empty_window_inert', 'a structured asset all of whose inner assets are inactive is inert: no variable, no row, no mapping row'),
 ]
 COMPONENTS = ['buildScaled on the captured real base problem vs ScaledAsset.setup_optim_problem',
               'structured on the captured real inner problems vs StructuredAsset.setup_optim_problem']
